@@ -19,15 +19,17 @@ FUC = ['pytoniq_core.crypto.crc.crc16', 'pytoniq_core.crypto.crc.crc32c']
 CHUNKS = [{'lo': i, 'hi': i + 16} for i in range(0, 256, 16)]
 
 
-def _extract(fname):
+def _extract(fname, w):
     from vf import loader, astbv
+    from harness.common import no_verdict
     with open(os.path.join(loader.REPO, 'pytoniq_core', 'crypto', 'crc.py')) as f:
         src = f.read()
     try:
         return astbv.extract_crc_function(src, fname)
     except astbv.NotInFragment as e:
-        from vf.sym import Unsupported
-        raise Unsupported(f'{fname} left the AST fragment the VC generator supports: {e}')
+        # a function outside the fragment is not a violation (a correct fast path would do it): no verdict here, the native
+        # differential obligation (all lengths, both byte orders, call histories) decides
+        no_verdict(w, f'{fname} left the AST fragment the VC generator supports: {e}')
 
 
 def _cfg(fname):
@@ -38,8 +40,8 @@ def _cfg(fname):
 
 def _table_name(x, w):
     if len(x['tables']) != 1:
-        w.claim('exactly one lookup table', False)
-        return None
+        from harness.common import no_verdict
+        no_verdict(w, 'not exactly one lookup table')
     return next(iter(x['tables']))
 
 
@@ -49,7 +51,7 @@ for _f in ('crc16', 'crc32c'):
                     descr='each of the 256 table entries (read from the AST) equals the bitwise definition applied to '
                           'the index; the table has exactly 256 entries')
         def table(w):
-            x = _extract(fname)
+            x = _extract(fname, w)
             cfg = _cfg(fname)
             t = _table_name(x, w)
             if t is None:
@@ -73,7 +75,7 @@ for _f in ('crc16', 'crc32c'):
                 return
             import z3
             from vf import astbv
-            x = _extract(fname)
+            x = _extract(fname, w)
             t = _table_name(x, w)
             if t is None:
                 return
@@ -83,14 +85,14 @@ for _f in ('crc16', 'crc32c'):
             byte = z3.BitVec('byte', W)
             w.inputs['crc'] = ('int', z3.BV2Int(crc))
             w.inputs['byte'] = ('int', z3.BV2Int(byte))
-            ev = astbv.BVEval({_state_var(x): crc, x['loop'].target.id: byte}, x['tables'])
+            ev = astbv.BVEval({_state_var(x, w): crc, x['loop'].target.id: byte}, x['tables'])
             try:
                 for s in x['loop'].body:
                     ev.stmt(s)
             except astbv.NotInFragment as e:
-                from vf.sym import Unsupported
-                raise Unsupported(f'loop body left the AST fragment: {e}')
-            out = ev.env[_state_var(x)]
+                from harness.common import no_verdict
+                no_verdict(w, f'loop body left the AST fragment: {e}')
+            out = ev.env[_state_var(x, w)]
             pre = z3.And(z3.ULT(crc, 1 << cfg['bits']), z3.ULT(byte, 256))
             spec = cfg['bv_step'](z3, crc, byte)
             w.claim('exactly one table lookup per iteration', len(ev.lookups) == 1)
@@ -116,8 +118,8 @@ for _f in ('crc16', 'crc32c'):
                 return
             import z3
             from vf import astbv
-            x = _extract(fname)
-            sv = _state_var(x)
+            x = _extract(fname, w)
+            sv = _state_var(x, w)
             ev = astbv.BVEval({}, x['tables'])
             for s in x['inits']:
                 ev.stmt(s)
@@ -142,11 +144,11 @@ for _f in ('crc16', 'crc32c'):
     _mk(_f)
 
 
-def _state_var(x):
+def _state_var(x, w):
     names = {_assigned(s) for s in x['loop'].body}
     if len(names) != 1:
-        from vf.sym import Unsupported
-        raise Unsupported('loop body assigns more than one variable')
+        from harness.common import no_verdict
+        no_verdict(w, 'loop body assigns more than one variable')
     return names.pop()
 
 
@@ -217,3 +219,20 @@ def _native_full(w, fname, order):
 def differential(w):
     _native_full(w, 'crc16', 'big')
     _native_full(w, 'crc32c', w.choice('order', ['little', 'big']))
+    # call histories: the same bytes under the other byte order, and a valid call right after a REFUSED one (an invalid byte
+    # order raises): results never depend on earlier calls
+    f = _real('crc32c')
+    d = w.bytes('hist', w.int('hn', 0, 40))
+    first = w.choice('first_order', ['little', 'big'])
+    other = 'big' if first == 'little' else 'little'
+    w.claim('crc32c: first call', f(d, first) == S.crc32c(d, first))
+    w.claim('crc32c: same bytes, other byte order', f(d, other) == S.crc32c(d, other))
+    try:
+        f(w.bytes('rejected', w.int('rn', 1, 20)), 'network')
+        refused = False
+    except Exception:
+        refused = True
+    w.claim('an invalid byte order is refused', refused)
+    d2 = w.bytes('after', w.int('an', 0, 20))
+    w.claim('crc32c: a valid call after a refused one', f(d2) == S.crc32c(d2, 'little'))
+    w.claim('crc16: after all that', _real('crc16')(d2) == S.crc16_xmodem(d2))
